@@ -128,6 +128,13 @@ def runChk (s : St) (ws : List String) : String :=
     else
       let x := getC s a; let y := getC s b
       s!"{head} clause=c judge={verdict (judgeCc x y) "reexec-captures-differ"} corr=- n1={x.length} n2={y.length}"
+  | ["p", a, b, mode, kind, sa, sb] =>
+    if isMStream s a || isMStream s b then
+      let x := getM s a; let y := getM s b
+      s!"{head} clause=p judge={verdict (judgeDm x y false) s!"byte-vs-point-range-{mode}{kind} positions={sa}..{sb}"} corr=- n1={x.length} n2={y.length} mode={mode}{kind}"
+    else
+      let x := getC s a; let y := getC s b
+      s!"{head} clause=p judge={verdict (judgeDc x y false) s!"byte-vs-point-range-captures-{mode}{kind} positions={sa}..{sb}"} corr=- n1={x.length} n2={y.length} mode={mode}{kind}"
   | ["cl", a, b, k] =>
     let x := getM s a; let y := getM s b
     s!"{head} clause=c judge={verdict (judgeDm x y false) "reused-cursor-ignores-lower-limit"} corr=- n1={x.length} n2={y.length} limit={k}"
@@ -167,22 +174,16 @@ the C side must print. -/
 def unitOp (s : St) (ws : List String) : St :=
   let fin (a : Array FS) (hs : Nat) (s : St) : St :=
     { s with heap := a, heapSize := hs, expect := heapLine a hs, heapOk := isHeapB a hs }
-  let hz := heapify (s.heap.size + 1) s.heap s.heapSize
+  let run (op : HOp) (s : St) : St := let r := applyOp (s.heap, s.heapSize) op; fin r.1 r.2 s
   match ws with
   | ["hnew"] => fin #[] 0 { s with nextOrder := 0 }
   | "hpush" :: pat :: _n :: bytes =>
     let x : FS := { order := s.nextOrder, pat := natOf pat, caps := bytes.map natOf, consumed := 0 }
-    fin (s.heap.push x) s.heapSize { s with nextOrder := s.nextOrder + 1 }
-  | ["hheapify"] => fin hz.1 hz.2 s
-  | ["hpop"] => let a := heapPop hz.1; fin a a.size s
-  | ["herase", i] => let a := heapErase hz.1 (natOf i); fin a a.size s
-  | ["hconsume"] =>
-    let a := hz.1
-    if a.size > 0 then
-      let x := a[0]!
-      let a := siftDown a.size (a.set! 0 { x with consumed := x.consumed + 1 }) 0
-      fin a hz.2 s
-    else fin a hz.2 s
+    run (.push x) { s with nextOrder := s.nextOrder + 1 }
+  | ["hheapify"] => run .heapify s
+  | ["hpop"] => run .pop s
+  | ["herase", i] => run (.erase (natOf i)) s
+  | ["hconsume"] => run .consume s
   | ["pnew"] => { s with pool := Pool.new, expect := poolLine (-1) Pool.new, heapOk := true }
   | ["pmax", k] => let p := { s.pool with max := natOf k }; { s with pool := p, expect := poolLine (-1) p, heapOk := true }
   | ["preset"] => let p := s.pool.reset; { s with pool := p, expect := poolLine (-1) p, heapOk := true }
